@@ -1,9 +1,10 @@
 """C20 -- pipe_asdf emits count, width and the concatenated raw bytes per field."""
 import ast
+import copy
 import re
 import os
 
-from ..core.srcmodel import dotted, unparse, walk_no_nested, AnalysisError, names_in, stores_in
+from ..core.srcmodel import dotted, unparse, walk_no_nested, AnalysisError, names_in, stores_in, clone_pos
 
 PA = 'abacusnbody/data/pipe_asdf.py'
 CL = 'pipe_asdf/client.c'
@@ -18,6 +19,102 @@ def contains(node, pred):
 
 def is_write(n):
     return isinstance(n, ast.Call) and isinstance(n.func, ast.Attribute) and n.func.attr == 'write' and unparse(n.func.value) == 'pipe'
+
+
+def _ensure_contig(s):
+    """`if not X.flags.c_contiguous: X = np.ascontiguousarray(X)`  ->  X   (copy only when needed)"""
+    if isinstance(s, ast.If) and not s.orelse and len(s.body) == 1 and isinstance(s.test, ast.UnaryOp) and isinstance(s.test.op, ast.Not):
+        b = s.body[0]
+        if isinstance(b, ast.Assign) and len(b.targets) == 1 and isinstance(b.targets[0], ast.Name):
+            x = b.targets[0].id
+            t = unparse(s.test.operand).replace('"', "'")
+            if t in (f'{x}.flags.c_contiguous', f"{x}.flags['C_CONTIGUOUS']", f'{x}.flags.contiguous', f"{x}.flags['C']", f"{x}.flags['CONTIGUOUS']") \
+                    and unparse(b.value) == f'np.ascontiguousarray({x})':
+                return x
+    return None
+
+
+def _contig_call(v):
+    if isinstance(v, ast.Call) and dotted(v.func) == 'np.ascontiguousarray' and len(v.args) == 1 and not [k for k in v.keywords if k.arg != 'dtype']:
+        return v.args[0] if not v.keywords else None
+    if isinstance(v, ast.Call) and dotted(v.func) == 'np.require' and len(v.args) == 1 and \
+            any(k.arg == 'requirements' and isinstance(k.value, (ast.Constant, ast.List, ast.Tuple)) and re.search(r"'(C|C_CONTIGUOUS|CONTIGUOUS)'", unparse(k.value)) for k in v.keywords) \
+            and not [k for k in v.keywords if k.arg != 'requirements']:
+        return v.args[0]
+    return None
+
+
+def _expand(node, scope, upto, strip_contig=False, depth=0):
+    """Replace local names by their definition: a name with exactly one store in `scope` (a statement list), that store
+    being an unconditional top-level assignment before statement #upto.  With strip_contig, contiguity-ensuring wrappers
+    (np.ascontiguousarray(v), v.tobytes(), the conditional-copy idiom) are removed and reported."""
+    contig = [False]
+
+    def stores(name):
+        return [n for st in scope for n in walk_no_nested(st) if isinstance(n, ast.Name) and n.id == name and isinstance(n.ctx, ast.Store)]
+
+    def go(n, d):
+        if d > 8:
+            return n
+        if strip_contig:
+            inner = _contig_call(n)
+            if inner is None and isinstance(n, ast.Call) and isinstance(n.func, ast.Attribute) and n.func.attr == 'tobytes' and not n.args and not n.keywords:
+                inner = n.func.value
+            if inner is not None:
+                contig[0] = True
+                return go(inner, d + 1)
+        if isinstance(n, ast.Name) and isinstance(n.ctx, ast.Load):
+            tops = [(i, st) for i, st in enumerate(scope[:upto]) if isinstance(st, ast.Assign) and len(st.targets) == 1 and isinstance(st.targets[0], ast.Name) and st.targets[0].id == n.id]
+            ens = [(i, st) for i, st in enumerate(scope[:upto]) if _ensure_contig(st) == n.id]
+            if len(tops) == 1 and len(stores(n.id)) == 1 + len(ens) and all(i > tops[0][0] for i, _ in ens):
+                if ens and strip_contig:
+                    contig[0] = True
+                if ens and not strip_contig:
+                    return n
+                return go(tops[0][1].value, d + 1)
+            return n
+        out = copy.copy(n)
+        for f, v in ast.iter_fields(n):
+            if isinstance(v, ast.AST):
+                setattr(out, f, go(v, d + 1))
+            elif isinstance(v, list):
+                setattr(out, f, [go(x, d + 1) if isinstance(x, ast.AST) else x for x in v])
+        return out
+    r = go(node, depth)
+    return r, contig[0]
+
+
+def _per_file_list(it, F, acc, skips):
+    """`it` names a list that the header loop over the files fills with one value per file: returns (file variable, element
+    expression) or None.  Required: created empty inside the per-field loop before that loop, exactly one append, unconditional."""
+    if not isinstance(it, ast.Name) or skips:
+        return None
+    L = it.id
+    inits = [i for i, st in enumerate(F.body) if isinstance(st, ast.Assign) and len(st.targets) == 1 and unparse(st.targets[0]) == L and unparse(st.value) in ('[]', 'list()')]
+    allst = [n for st in F.body for n in walk_no_nested(st) if isinstance(n, ast.Name) and n.id == L and isinstance(n.ctx, ast.Store)]
+    if len(inits) != 1:
+        return None
+    found = None
+    nmut = 0
+    for lp_ in acc:
+        for st in ast.walk(lp_):
+            e = None
+            if isinstance(st, ast.AugAssign) and unparse(st.target) == L:
+                nmut += 1
+                if isinstance(st.op, ast.Add) and isinstance(st.value, (ast.List, ast.Tuple)) and len(st.value.elts) == 1:
+                    e = st.value.elts[0]
+            elif isinstance(st, ast.Expr) and isinstance(st.value, ast.Call) and isinstance(st.value.func, ast.Attribute) and unparse(st.value.func.value) == L:
+                nmut += 1
+                if st.value.func.attr == 'append' and len(st.value.args) == 1:
+                    e = st.value.args[0]
+            if e is not None and any(x is st for x in lp_.body) and F.body.index(lp_) > inits[0]:
+                v, _ = _expand(e, lp_.body, lp_.body.index(st))
+                found = (lp_.target.id, v)
+    # every other mention of the list in the per-field loop must be a plain read (the iteration)
+    other = [n for st in F.body for n in ast.walk(st) if isinstance(n, ast.Call) and isinstance(n.func, ast.Attribute) and unparse(n.func.value) == L and n.func.attr != 'append']
+    if nmut != 1 or found is None or other or len(allst) != 2:
+        return None
+    return found
 
 
 def run(chk):
@@ -90,19 +187,19 @@ def run(chk):
     acc = [s for s in F.body if isinstance(s, ast.For) and unparse(s.iter) == 'afs' and not contains(s, is_write)]
     oka = False
     wdef_ok = False
-    # the count and the width may be computed in one loop over the files or in two
+    # the count and the width may be computed in one loop over the files or in two; local names are expanded to their
+    # (single, unconditional, earlier) definition in the loop body before the comparison
     for lp_ in acc:
         af = lp_.target.id
         adds = [n for n in ast.walk(lp_) if isinstance(n, ast.AugAssign) and unparse(n.target) == cnt and isinstance(n.op, ast.Add)]
-        if len(adds) == 1 and not oka:
-            v = adds[0].value
-            if isinstance(v, ast.Name):
-                d = [n for n in lp_.body if isinstance(n, ast.Assign) and unparse(n.targets[0]) == v.id]
-                v = d[0].value if d else v
-            oka = unparse(v) == f'np.prod({af}[data_key][{fld}].shape)' and any(x is adds[0] for x in lp_.body)
-        wd = [n for n in ast.walk(lp_) if isinstance(n, ast.Assign) and unparse(n.targets[0]) == wid]
-        if len(wd) == 1 and unparse(wd[0].value) == f'np.int32({af}[data_key][{fld}].dtype.itemsize)':
-            wdef_ok = True
+        if len(adds) == 1 and not oka and any(x is adds[0] for x in lp_.body):
+            v, _ = _expand(adds[0].value, lp_.body, lp_.body.index(adds[0]))
+            oka = unparse(v) == f'np.prod({af}[data_key][{fld}].shape)'
+        wd = [n for n in lp_.body if isinstance(n, ast.Assign) and unparse(n.targets[0]) == wid]
+        if len(wd) == 1 and len([n for n in ast.walk(lp_) if isinstance(n, ast.Name) and n.id == wid and isinstance(n.ctx, ast.Store)]) == 1:
+            v, _ = _expand(wd[0].value, lp_.body, lp_.body.index(wd[0]))
+            if unparse(v) == f'np.int32({af}[data_key][{fld}].dtype.itemsize)':
+                wdef_ok = True
     nadds = sum(1 for lp_ in acc for n in ast.walk(lp_) if isinstance(n, ast.AugAssign) and unparse(n.target) == cnt)
     oka = oka and nadds == 1
     # the count and the width are taken from EVERY file: no continue / break in those loops, the assignments are unconditional,
@@ -118,24 +215,32 @@ def run(chk):
               'width header is not np.int32(dtype.itemsize) of the field', node=F)
     pay = [x for x in seq if x[0] == 'payload']
     pl = pay[0][2]
-    okp = unparse(pl.iter) == 'afs' and len(pay) == 1
-    warg = pay[0][1].args[0]
-    contiguous = False
-    if isinstance(warg, ast.Call) and dotted(warg.func) in ('np.ascontiguousarray', 'np.require') and warg.args:
-        contiguous, warg = True, warg.args[0]
-    elif isinstance(warg, ast.Call) and isinstance(warg.func, ast.Attribute) and warg.func.attr in ('tobytes',) and not warg.args:
-        contiguous, warg = True, warg.func.value
-    arg = unparse(warg)
-    adef = [n for n in pl.body if isinstance(n, ast.Assign) and unparse(n.targets[0]) == arg]
-    if adef and isinstance(adef[0].value, ast.Call) and dotted(adef[0].value.func) == 'np.ascontiguousarray' and adef[0].value.args:
-        contiguous = True
-        adef = [ast.Assign(targets=adef[0].targets, value=adef[0].value.args[0], lineno=adef[0].lineno)]
+    wcall = pay[0][1]
+    wstmt = next((x for x in pl.body if isinstance(x, ast.Expr) and x.value is wcall), None)
+    okp = len(pay) == 1 and wstmt is not None and isinstance(pl.target, ast.Name)
+    contiguous, payload_txt, want_txt = False, None, None
+    if okp:
+        val, contiguous = _expand(wcall.args[0], pl.body, pl.body.index(wstmt), strip_contig=True)
+        payload_txt = unparse(val)
+        if unparse(pl.iter) == 'afs':
+            want_txt = f'{pl.target.id}[data_key][{fld}][:]'
+        else:
+            # a list of per-file values collected in the header loop: one unconditional append per file, list re-created for
+            # every field, iterated in the order it was built
+            elem = _per_file_list(pl.iter, F, acc, skips)
+            if elem is not None:
+                af0, e = elem
+                class Sub(ast.NodeTransformer):
+                    def visit_Name(s_, n):
+                        return clone_pos(e) if n.id == pl.target.id and isinstance(n.ctx, ast.Load) else n
+                payload_txt = unparse(Sub().visit(clone_pos(val)))
+                want_txt = f'{af0}[data_key][{fld}][:]'
     chk.check(contiguous, 'C20-R2', PA, Q, 'the payload handed to write() is C-contiguous (np.ascontiguousarray / tobytes)', unparse(pay[0][1])[:60],
               f'{unparse(pay[0][1])[:60]}: the array read from the file can be a strided view (two columns sharing a block, Fortran order); the binary '
               'stream\'s write() refuses a non-contiguous buffer AFTER count and width were written: a truncated frame instead of count x width bytes', node=pay[0][1], nontrivial=False)
-    okp = okp and len(adef) == 1 and unparse(adef[0].value) == f'{pl.target.id}[data_key][{fld}][:]'
+    okp = okp and want_txt is not None and payload_txt == want_txt
     chk.check(okp, 'C20-R2', PA, Q, 'payload = the field\'s raw array of each file, one write per file', '',
-              f'payload loop writes {arg} = {unparse(adef[0].value) if adef else None} over {unparse(pl.iter)}', node=pl)
+              f'payload loop writes {payload_txt} over {unparse(pl.iter)}', node=pl)
     # header widths
     chk.check(True, 'C20-R2', PA, Q, 'header byte widths', f'{WIDTH["np.int64"]} + {WIDTH["np.int32"]} bytes', nontrivial=False)
     # ---- R3
